@@ -1285,6 +1285,11 @@ class Fn:
             self.needs_dflt = True
             return [], "dflt", "mode"
         name = p[-1]
+        if len(p) == 1 and (self.f["file"], name) in getattr(self, "alias", {}):
+            name = self.alias[(self.f["file"], name)]
+            if name not in self.sigs:
+                raise Unsupported("call of the local function %s, which could not be translated" % p[-1])
+            return self.call_sig(name, x[2], env)
         if len(p) == 2 and p[1] == "try_from" and len(x[2]) == 1 and (p[0] in INT_TYPES or (p[0] == "Self" and self.self_ty in INT_TYPES)):
             T = p[0] if p[0] in INT_TYPES else self.self_ty
             pre, a, t = self.e(x[2][0], env, None)
@@ -2126,9 +2131,16 @@ def generate(targets, file_consts, out_path, header, unit, base=None):
     if acc.get("macro_errors"):
         status["macro_errors"] = acc["macro_errors"]
     base_fns = base[0] if base else {}
+    # a free function of this unit's files with the name of a function of the base unit shadows it within its own file only
+    alias = {}
+    for k in [k for k in acc["fns"] if "::" not in k and k in base_fns and base_fns[k]["file"] != acc["fns"][k]["file"]]:
+        rec = acc["fns"].pop(k)
+        newk = "%s__%s" % (k, re.sub(r"\W", "_", os.path.splitext(os.path.basename(rec["file"]))[0]))
+        rec["name"] = newk; acc["fns"][newk] = rec; alias[(rec["file"], k)] = newk
 
     def resolve_call(c, caller):
         """key of the function a call path refers to, among the parsed functions"""
+        if (caller["file"], c) in alias: return alias[(caller["file"], c)]
         if c in acc["fns"] or c in base_fns: return c
         last = c.split("::")[-1]
         if "::" not in c or c.split("::")[0] in ("crate", "super", "self"):
@@ -2166,7 +2178,11 @@ def generate(targets, file_consts, out_path, header, unit, base=None):
         grew = False
         for n in list(fns):
             for c in callees(fns[n]):
-                if c not in fns and c in acc["fns"] and not (base and c in base[1]):
+                # a function of the base unit is not translated again - unless this unit's files define their own function
+                # of that name (a local definition shadows the imported one)
+                same_as_base = bool(base) and c in base[1] and (c not in base[0] or base[0][c]["file"] == acc["fns"][c]["file"]) \
+                    if c in acc["fns"] else False
+                if c not in fns and c in acc["fns"] and not same_as_base:
                     fns[c] = acc["fns"][c]; grew = True
     # which functions reach RoundingMode::default()
     uses = set(base[2]) if base else set()
@@ -2218,11 +2234,12 @@ def generate(targets, file_consts, out_path, header, unit, base=None):
     for n in order:
         f = fns[n]
         if f["body"] is None:
-            status["failed"][n] = f.get("error", "unparsed"); continue
+            status["failed"][n] = f.get("error", "unparsed"); ok.discard(n); continue
         try:
             avail = {k: v for k, v in sigs.items() if k in ok or k == n}
             tr = Fn(f, avail, fconsts, uses)
             tr.impl_consts = acc["impl_consts"]
+            tr.alias = alias
             tr.fuel_name = "LOOP_FUEL" if unit == "core" else "FUEL_" + coq_name(n)[2:]
             text = tr.translate()
             if unit != "core" and tr.loops:
@@ -2231,9 +2248,9 @@ def generate(targets, file_consts, out_path, header, unit, base=None):
             out.append(text)
             ok.add(n); status["translated"].append(n)
         except Unsupported as ex:
-            status["failed"][n] = str(ex)
+            status["failed"][n] = str(ex); ok.discard(n)    # a local definition that shadows a base function must not fall back to it
         except Exception as ex:     # a bug of the translator must not look like a translation
-            status["failed"][n] = "translator error: %r" % (ex,)
+            status["failed"][n] = "translator error: %r" % (ex,); ok.discard(n)
     status["fn_info"] = {n: dict(file=fns[n]["file"], impl=fns[n].get("impl"), macro=fns[n].get("macro")) for n in status["translated"]}
     status["impl_blocks"] = acc.get("impl_blocks", {})
     target_names = {n for _, names in targets for n in names}
